@@ -471,11 +471,14 @@ def hasInFrameStop (c : CDS) : R Bool := do
   let p ← translate c false 0 true
   pure (p.dropLast.contains '*')
 
-/-- `has_valid_stop` : `Codon(seq[-3:].sequence.upper()).is_stop_codon` -/
+/-- `has_valid_stop` : `False` when fewer than three bases are translated (since 7757ccc), else
+    `Codon(seq[-3:].sequence.upper()).is_stop_codon` -/
 def hasValidStop (c : CDS) : R Bool := do
   let seq ← extractSequence c
-  let cod ← mkCodon (pySlice seq (-3) seq.length)
-  pure (isStopCodon cod)
+  if seq.length < 3 then pure false
+  else do
+    let cod ← mkCodon (pySlice seq (-3) seq.length)
+    pure (isStopCodon cod)
 
 /-- `next(self.scan_codons(), None)`: the first codon, `none` for a CDS without a complete codon -/
 def firstCodon (c : CDS) : R (Option (List Char)) := do
